@@ -2487,6 +2487,9 @@ def c18_checks(repo: Repo, tier: str, res: CheckResult, seed: int) -> None:
             return _style_oracle(name, oracle.get("style"))
 
         sides = {k: r.get(k) for k in ("loader", "dumper") if k in r}
+        for side, out in sides.items():
+            if isinstance(out, dict) and out.get("harness_error"):
+                raise AnalysisError(f"enum table harness cannot call the {side} factory of {ident} (signature moved?): {out['harness_error']}")
         if r["provider"] == "value":
             for side, out in sides.items():
                 qual = f"EnumValueProvider._make_{side}"
